@@ -27,7 +27,8 @@ LEVEL = "exploration"
 ENGINE = "threads"
 RUNS = {"quick": 24_000, "thorough": 600_000}
 RULE = ("seeded workloads (1-2 stores, 2-3 tasks x 1-3 operations from consume/regenerate/convert/transfer in both "
-        "directions, rarely reset / enter / exit dormancy, optional real regeneration thread on a virtual 1 s timer; a fifth "
+        "directions, rarely reset / enter / exit dormancy, in 12 % of the workloads apply_debt_interest at a rate "
+        "whose interest truncates to 0 against concurrent borrowing and repayment, optional real regeneration thread on a virtual 1 s timer; a fifth "
         "of the workloads spend from the shared store through the real call sites CoherentFeedForwardLoop.run and "
         "QuorumSensing.run_vote) x seeded schedules (serial, uniform, "
         "sticky, pct, lock-biased) with a decision at every source line of metabolism.py and every lock operation; "
@@ -40,7 +41,7 @@ COMPONENTS = {"real": ["operon_ai.state.metabolism.ATP_Store incl. its regenerat
 ASSUMPTIONS = ["pre-emption granularity is the source line", "a transfer is two atomic steps (withdraw, deposit), never atomic across two stores",
                "the real store run single-threaded is the sequential specification (C04 pins the sequential semantics)"]
 EXPECT_PROBES = ("preempted_while_holding_a_lock", "lock_blocked", "opposite_transfers", "lin_checked",
-                 "agent_spend_recorded", "timer_driven_regeneration")
+                 "agent_spend_recorded", "timer_driven_regeneration", "interest_call_with_debt_outstanding")
 
 CUR = {"atp": EnergyType.ATP, "gtp": EnergyType.GTP, "nadh": EnergyType.NADH}
 SCOPE = None
@@ -84,6 +85,15 @@ def gen(rng, tier, i):
                        "budget": rng.choice([0, 3, 5, 8, 10, 12]), "gtp": rng.choice([0, 0, 4, 6]),
                        "nadh": rng.choice([0, 0, 3, 6]), "max_debt": rng.choice([0, 0, 6, 10]),
                        "regen": (rng.choice([1, 2, 3]) if rng.random() < (0.12 if tier == "quick" else 0.2) else 0)})
+    # apply_debt_interest takes no lock.  With a rate whose interest on any reachable debt truncates to 0 it must be a
+    # no-op for the ledger wherever it is interleaved; larger rates are not generated because the shipped code computes the
+    # interest from a debt read one line earlier, which the statement ("interest aside" in C04) does not rule on
+    debtfam = rng.random() < 0.12
+    if debtfam:
+        for c in stores:
+            c["max_debt"] = rng.choice([6, 10, 20])
+            c["di"] = rng.choice([0.0, 0.0, 0.01, 0.04])
+            c["budget"] = rng.choice([0, 3, 5])
     ntasks = rng.choice([2, 2, 3])
     amounts = [1, 2, 3, 4, 5, 7, 8, 11, 13]
     rng.shuffle(amounts)
@@ -98,9 +108,13 @@ def gen(rng, tier, i):
                                   (3.0 if nstores == 2 else 0.3, "transfer"),
                                   # rarely used but locked public methods belong to the same critical-section family
                                   (0.35, "reset"), (0.15, "dormancy_in"), (0.15, "dormancy_out")])
-            if kind == "consume":
+            if debtfam and rng.random() < 0.35:
+                kind = "interest"
+            if kind == "interest":
+                ops.append(["interest", s])
+            elif kind == "consume":
                 ops.append(["consume", s, a, weighted(rng, [(6, "atp"), (1.5, "gtp"), (1, "nadh")]),
-                            rng.random() < 0.3, rng.choice([0, 0, 0, 10])])
+                            rng.random() < (0.8 if debtfam else 0.3), rng.choice([0, 0, 0, 10])])
             elif kind == "regenerate":
                 ops.append(["regenerate", s, a, weighted(rng, [(5, "atp"), (1, "gtp"), (1, "nadh")])])
             elif kind == "convert":
@@ -112,6 +126,11 @@ def gen(rng, tier, i):
                 ops.append(["transfer", s, d, a, weighted(rng, [(6, "atp"), (1, "gtp"), (1, "nadh")])])
             steps += 2 if kind == "transfer" else 1
         tasks.append(ops)
+    if debtfam:
+        # debt must be outstanding when the unlocked method starts, or it returns at its first line
+        t = rng.randrange(ntasks)
+        s0 = next((op[1] for op in tasks[t] if op[0] == "interest"), 0)
+        tasks[t].insert(0, ["consume", s0, stores[s0]["budget"] + rng.choice([1, 2, 4]), "atp", True, 10])
     if any(s["regen"] for s in stores) and rng.random() < 0.6:
         tasks[-1].append(["stop", next(j for j, s in enumerate(stores) if s["regen"])])
     strat = weighted(rng, [(1, {"kind": "serial"}), (2, {"kind": "uniform"}),
@@ -168,7 +187,8 @@ def _mk_cb(raise_on):
 def _mk_store(cfg):
     return ATP_Store(on_state_change=(_mk_cb(cfg["cb"]) if cfg.get("cb") is not None else None),
                      budget=cfg["budget"], gtp_budget=cfg["gtp"], nadh_reserve=cfg["nadh"],
-                     regeneration_rate=float(cfg["regen"]), max_debt=cfg["max_debt"], silent=cfg.get("silent", True))
+                     regeneration_rate=float(cfg["regen"]), max_debt=cfg["max_debt"], silent=cfg.get("silent", True),
+                     **({"debt_interest": cfg["di"]} if "di" in cfg else {}))
 
 
 def _state(st):
@@ -202,6 +222,8 @@ def _do(stores, op, sink=None):
         return stores[op[2]].regenerate(op[3], CUR[op[4]])
     if kind == "stop":
         return stores[op[1]].stop_regeneration()
+    if kind == "interest":
+        return stores[op[1]].apply_debt_interest()
     if kind == "reset":
         return stores[op[1]].reset()
     if kind == "dormancy_in":
@@ -289,6 +311,8 @@ def run(plan, k):
             for oi, op in enumerate(ops):
                 inv = k.ev("inv", [ti, oi])
                 me.op = op[0]
+                if op[0] == "interest" and stores[op[1]].get_debt() > 0:
+                    k.probe("interest_call_with_debt_outstanding")
                 out = call(_do, stores, op)
                 me.op = None
                 ret = k.ev("ret", [ti, oi, out.brief()])
